@@ -576,7 +576,57 @@ func bo2y(bo *ssa.BinOp, ok bool) ssa.Value {
 	return bo.Y
 }
 
+// c17FailureReplyMeansError: whoever tells the client that the request failed also tells its caller.
+func c17FailureReplyMeansError(c *Ctx, p *Prog) {
+	ob := c.Obl("R5", "common/socks5#failure-reply-means-error", "every return that follows a failure reply (Reply with a constant code other than ReplySucceeded) inside the handshake code carries a non-nil error: Handshake never succeeds with a request it has already refused")
+	n := 0
+	for _, fn := range p.Funcs {
+		if relPkg(fn.Pkg.Pkg.Path()) != "common/socks5" || fn.Synthetic != "" {
+			continue
+		}
+		ei := errResultIndex(fn)
+		if ei < 0 {
+			continue
+		}
+		ff := p.Facts(fn)
+		var bad string
+		allInstrs(fn, func(in ssa.Instruction) {
+			ci, ok := in.(ssa.CallInstruction)
+			if !ok || bad != "" {
+				return
+			}
+			sc := ci.Common().StaticCallee()
+			if sc == nil || sc.Name() != "Reply" || len(ci.Common().Args) != 2 {
+				return
+			}
+			code, ok := intConst(ci.Common().Args[1])
+			if !ok || code == 0 {
+				return
+			}
+			n++
+			for _, r := range returnsOf(fn) {
+				if !canReachWithout(in, r, nil) || ei >= len(r.Results) {
+					continue
+				}
+				if !ff.ProvablyNonNil(r.Results[ei], r.Block(), 0) {
+					bad = p.FuncKey(fn) + ": after the failure reply at " + p.InstrPos(in) + " the return at " + p.InstrPos(r) + " may carry a nil error"
+				}
+			}
+		})
+		if bad != "" {
+			ob.Violate("%s", bad)
+			return
+		}
+	}
+	if n == 0 {
+		ob.Undecide("no failure reply found")
+		return
+	}
+	ob.HoldNT("%d failure replies, every return after one is an error return", n)
+}
+
 func c17Replies(c *Ctx, p *Prog) {
+	c17FailureReplyMeansError(c, p)
 	rc := p.Func("common/socks5:(*Request).readCommand")
 	ob := c.Obl("R5", "common/socks5:(*Request).readCommand#reply-on-failure", "every failure return of the command reader is preceded, in its own block, by a reply to the client; an unsupported command is answered with code 7 and an unsupported address type with code 8")
 	if rc == nil {
